@@ -60,6 +60,10 @@ def programs(tier):
     out.append(("free-horizon/release", prog(None, [fixed("a", 2, release_date=3), fixed("b", 1), worker("w"), req("a", "w"), req("b", "w"),
                                                     new("ObjectiveMinimizeMakespan", "o")], H=6), "lia"))
     out.append(("free-horizon/startat", prog(None, [fixed("a", 1), con("TaskStartAt", "c", task=R("a"), value=4), new("ObjectiveMinimizeMakespan", "o")], H=6), "lia"))
+    out.append(("two-objectives-w23", prog(4, W2 + [new("IndicatorFromMathExpression", "i1", name="i1", expression=E(["end", "a"])),
+                                                    new("IndicatorFromMathExpression", "i2", name="i2", expression=E(["start", "b"])),
+                                                    new("ObjectiveMinimizeIndicator", "o1", target=R("i1"), weight=2),
+                                                    new("ObjectiveMinimizeIndicator", "o2", target=R("i2"), weight=3)]), "lia"))
     out.append(("infeasible-by-constraint", prog(3, [fixed("a", 2), fixed("b", 2), con("TasksDontOverlap", "c", task_1=R("a"), task_2=R("b"))]), "lia"))
     if tier == "thorough":
         out.append(("nonconcurrent-buffer", prog(3, [fixed("a", 1), fixed("b", 1), new("NonConcurrentBuffer", "bf", name="bf", initial_level=1, lower_bound=0),
